@@ -19,7 +19,7 @@ ID = 'C03'
 LEVEL = 'exploration'
 RULE = ("dies: all valid region sets of size <=2 (kinds '#', 'dsp', fixed) on a 3x3-cell grid, families HALF and DEC1, optionally refined "
         "(split_refinable_regions / initial_grid); netlists: the fixed modules the die dictates + every set of <=2 movable modules from 20 variants "
-        "(5 centre-only squares incl. irrational side and sticking out, 10 soft rectangle shapes incl. two-rectangle and out-of-die, 5 hard shapes); both "
+        "(5 centre-only squares incl. irrational side and sticking out, 12 soft rectangle shapes incl. two-rectangle, out-of-die and 1e-6 near misses of a cell boundary, 5 hard shapes), also after the movable module was relocated in place following a first allocation; both "
         "include-zero settings where defined. Non-trivial = cases in which at least one movable module partially covers at least one cell "
         "(0 < ratio < 1); distinct by construction.")
 ASSUMPTIONS = ["ratios compared with 1e-9; a module is expected to be listed iff its exact overlap with the cell is positive; "
@@ -45,6 +45,10 @@ def movable_variants():
     v.append(('softL', dict(kind='soft', rects=[(0, 0, 4, 2), (0, 2, 2, 4)])))
     v.append(('soft2', dict(kind='soft', rects=[(0, 0, 2, 2), (4, 4, 6, 6)])))
     v.append(('softDL', dict(kind='soft', rects=[(4, 0, 8, 2), (4, 2, 6, 4)])))
+    # near misses: an edge 1e-6 grid steps short of / beyond a cell boundary (coverage 0.999999.. resp. 0.000001..)
+    e6 = F(1, 500000)       # in half steps
+    v.append(('softShort', dict(kind='soft', rects=[(0, 0, 4 - e6, 2)])))
+    v.append(('softOver', dict(kind='soft', rects=[(2, 2, 4 + e6, 4 + e6)])))
     for k in ('A', 'B', 'C', 'G'):
         v.append((f'hard{k}', dict(kind='hard', rects=[singles[k]])))
     v.append(('hardL', dict(kind='hard', rects=[(0, 0, 4, 2), (0, 2, 2, 4)])))
@@ -52,7 +56,7 @@ def movable_variants():
 
 
 VARIANTS = movable_variants()
-REDUCED = [i for i, (n, _) in enumerate(VARIANTS) if n in ('sq0', 'sq2', 'sq4', 'softA', 'softC', 'softD', 'softFw', 'softL', 'hardB', 'hardL')]
+REDUCED = [i for i, (n, _) in enumerate(VARIANTS) if n in ('sq0', 'sq2', 'sq4', 'softA', 'softC', 'softD', 'softFw', 'softL', 'softShort', 'hardB', 'hardL')]
 
 
 def die_descriptions(kmax):
@@ -94,6 +98,8 @@ def shards(tier):
     for fam in ('HALF', 'DEC1'):
         for lo in range(0, d1, 6):
             out.append(dict(fam=fam, refine=True, lo=lo, hi=min(d1, lo + 6)))
+    for lo in range(0, d1, 6):
+        out.append(dict(fam='HALF', moved=True, lo=lo, hi=min(d1, lo + 6)))
     return out
 
 
@@ -152,6 +158,36 @@ def build(case):
         model['M0_only'] = dict(kind='soft', rects=None, square=(float(u * F(3, 2)), float(u * F(3, 2)), float(u * u)))
     netlist = Netlist({'Modules': mods, 'Nets': []})
     die = Die(tree, netlist)
+    mv = case.get('move')
+    if mv:
+        # a movable module that was relocated IN PLACE after loading (what tools/spectral, tools/glbfloor and
+        # tools/force do) is allocated at its new place: first an allocation at the old place (so that anything
+        # derived from the old coordinates has been computed), then the move
+        from frame.allocation.allocation import create_initial_allocation
+        from frame.geometry.geometry import Point
+        if die.floorplanning_rectangles()[0] or die.floorplanning_rectangles()[1]:
+            create_initial_allocation(die, False)
+        dx, dy = F(mv[0]) * u / 2, F(mv[1]) * u / 2
+        for mname, md in model.items():
+            if md['kind'] == 'fixed':
+                continue
+            m = netlist.get_module(mname)
+            if md['rects'] is None:                       # centre-only module: its square was created by the allocation
+                cx, cy, a = md['square']
+                m.center.x += float(dx)
+                m.center.y += float(dy)
+                for r in m.rectangles:
+                    r.center = Point(m.center.x, m.center.y)
+                md['square'] = (m.center.x, m.center.y, a)
+            elif md['kind'] == 'hard':
+                m.center = Point(m.center.x + float(dx), m.center.y + float(dy))
+                m.recenter_rectangles()
+                md['rects'] = [(e[0] + dx, e[1] + dy, e[2] + dx, e[3] + dy) for e in md['rects']]
+            else:
+                for r in m.rectangles:
+                    r.center.x += float(dx)
+                    r.center.y += float(dy)
+                md['rects'] = [(e[0] + dx, e[1] + dy, e[2] + dx, e[3] + dy) for e in md['rects']]
     pre = case.get('pre')
     if pre:
         if pre[0] == 'split':
@@ -170,7 +206,7 @@ def overlap_f(c, r):
 
 def check_case(case, res):
     from frame.allocation.allocation import create_initial_allocation
-    attrs = dict(fam=case['fam'], zero=case['zero'], pre=bool(case.get('pre')), nmods=len(case['mods']))
+    attrs = dict(fam=case['fam'], zero=case['zero'], pre=bool(case.get('pre')), nmods=len(case['mods']), moved=bool(case.get('move')))
     try:
         die, netlist, model, scale = build(case)
     except Exception as e:  # noqa
@@ -187,7 +223,8 @@ def check_case(case, res):
     def shape_rects(m):
         md = model[m]
         if md['rects'] is not None:
-            return [tuple(float(v) for v in e) for e in md['rects']], True
+            dyadic = all((F(v).denominator & (F(v).denominator - 1)) == 0 for e in md['rects'] for v in e)
+            return [tuple(float(v) for v in e) for e in md['rects']], dyadic
         cx, cy, a = md['square']
         s = math.sqrt(a)
         return [(cx - s / 2, cy - s / 2, cx + s / 2, cy + s / 2)], False
@@ -213,6 +250,8 @@ def check_case(case, res):
                 touches[m] = True
                 if ratio < 1 - 1e-9 and model[m]['kind'] != 'fixed':
                     partial = True
+            elif ratio > 0:
+                opt.add(m)          # positive but below the comparison tolerance: listed with a tiny ratio, or not
             elif not (exact and exact_family):
                 # zero overlap, but the shape touches the cell and coordinates are rounded (decimal family or
                 # irrational square): a listing with a rounding-sized ratio is accepted as well as none (DESIGN 3.2)
@@ -315,6 +354,17 @@ def check_case(case, res):
 
 def run_shard(shard, tier, res):
     fam = shard['fam']
+    if shard.get('moved'):
+        dies = die_descriptions(1)[shard['lo']:shard['hi']]
+        for items in dies:
+            for ms in module_sets(1):
+                if not ms:
+                    continue
+                for mv in ([1, 0], [0, -1], [2, 1]):
+                    reset_frame_state()
+                    check_case(dict(fam=fam, die=[[list(r), k] for r, k in items], mods=list(ms), zero=False, move=mv), res)
+        res.samples.append(dict(fam=fam, die=[], mods=[len(VARIANTS) - 1], zero=False, move=[1, 0]))
+        return
     if shard.get('refine'):
         dies = die_descriptions(1)[shard['lo']:shard['hi']]
         pres = [['split', 2.0, 4], ['split', 1.5, 3], ['split', 3.0, 7]]
